@@ -731,17 +731,17 @@ class Session:
                       'nodes_expected_row_col': [sorted(divmod(n, sg['ncols']) for n in s) for s in want_sets[:1]]})
         if trace_ok:
             ctx.count('io_trace_ok:' + method)
-        # ---- overlap bookkeeping ------------------------------------------------------------------------
-        if g_obs is not None and loc['decisive']:
+        # ---- overlap bookkeeping (keyed on the sub-grid that has to serve the query, whatever was observed) -----
+        if loc['decisive'] and loc['finest_in'] is not None:
             n_in = sum(1 for s in loc['status'] if s == 'in')
-            sg = subs[g_obs]
+            exp = subs[loc['finest_in']]
             if n_in >= 2:
                 ctx.count('overlap_finest_judged')
-                if sg.get('touches_parent_edge'):
+                if exp.get('touches_parent_edge'):
                     ctx.count('overlap_touching_edge_judged')
-                if sg['role'] == 'grandchild':
+                if exp['role'] == 'grandchild':
                     ctx.count('overlap_grandchild_judged')
-            if sg.get('sibling'):
+            if exp.get('sibling'):
                 ctx.count('siblings_judged')
             if q.get('cls') in ('probe', 'corner-probe'):
                 ctx.count('probe_inside_judged')
